@@ -122,7 +122,7 @@ def json_digest(path_or_obj, drop=VOLATILE_JSON_KEYS, keep=None):
     return hashlib.sha256(s.encode()).hexdigest()[:16]
 
 
-def h5_digest(path, skip=('metadata',), json_datasets=('taxonomy_tree',), parts=False):
+def h5_digest(path, skip=('metadata',), json_datasets=('taxonomy_tree',), parts=False, content_only=False):
     """dataset names, dtypes, shapes and raw bytes; volatile metadata excluded; JSON datasets parsed"""
     import h5py
     h = hashlib.sha256()
@@ -150,11 +150,15 @@ def h5_digest(path, skip=('metadata',), json_datasets=('taxonomy_tree',), parts=
             # variable-length strings: the raw buffer holds pointers, so digest the values
             b = json.dumps([x.decode('utf-8', 'replace') if isinstance(x, bytes) else str(x)
                             for x in np.asarray(v).ravel().tolist()]).encode()
+        elif content_only and getattr(v, 'dtype', None) is not None and v.dtype.kind in 'iu':
+            # the VALUES only: integer width / signedness is a storage decision
+            b = np.ascontiguousarray(np.asarray(v).astype(np.int64)).tobytes()
         else:
             b = np.ascontiguousarray(v).tobytes()
         one = hashlib.sha256(b).hexdigest()[:10]
-        plist.append((name, str(obj.dtype), tuple(obj.shape), one))
-        h.update(repr((name, str(obj.dtype), tuple(obj.shape))).encode())
+        dt = str(obj.dtype) if not (content_only and obj.dtype.kind in 'iu') else 'int'
+        plist.append((name, dt, tuple(obj.shape), one))
+        h.update(repr((name, dt, tuple(obj.shape))).encode())
         h.update(b)
     with h5py.File(path, 'r') as f:
         names = []
